@@ -281,7 +281,7 @@ func zvC14BuildChain(spec [][]*zvC14Term) Chain {
 
 // ---- paths ---------------------------------------------------------------------
 
-var zvC14PathNames = []string{"bgp_nocomm", "bgp_comm", "static", "bgp_emptylists_v6nh", "bgp_othercomm"}
+var zvC14PathNames = []string{"bgp_nocomm", "bgp_comm", "static", "bgp_emptylists_v6nh", "bgp_othercomm", "bgp_aspath_spare_capacity"}
 
 func zvC14Path(i int) *route.Path {
 	switch i {
@@ -299,6 +299,11 @@ func zvC14Path(i int) *route.Path {
 			LargeCommunities: &types.LargeCommunities{{GlobalAdministrator: 65000, DataPart1: 1, DataPart2: 1}},
 			ClusterList:      &types.ClusterList{7},
 			PathIdentifier:   5}}
+	case 5: // like 0, but the ASN slice has room to grow in place (as after an earlier prepend): a copy of the path shares that array
+		asp := types.ASPath{{Type: types.ASSequence, ASNs: append(make([]uint32, 0, 8), 65001, 65002, 65003)}}
+		return &route.Path{Type: route.BGPPathType, BGPPath: &route.BGPPath{
+			BGPPathA: &route.BGPPathA{NextHop: bnet.IPv4FromOctets(192, 0, 2, 1).Ptr(), Source: bnet.IPv4FromOctets(192, 0, 2, 1).Ptr(), LocalPref: 100, EBGP: true},
+			ASPath:   &asp, ASPathLen: 3}}
 	case 2: // static path
 		return &route.Path{Type: route.StaticPathType, StaticPath: &route.StaticPath{NextHop: bnet.IPv4FromOctets(192, 0, 2, 9).Ptr()}}
 	case 3: // BGP path with empty (non-nil) lists, empty AS path, IPv6 next hop
@@ -1222,7 +1227,7 @@ func TestVerifC14(t *testing.T) {
 		realTerms[i] = t.real()
 		amb[i] = zvC14Ambiguous([][]*zvC14Term{{t}})
 	}
-	inputs := zvC14Inputs(zvC14ChainProbes(), []int{0, 1, 2, 3, 4})
+	inputs := zvC14Inputs(zvC14ChainProbes(), []int{0, 1, 2, 3, 4, 5})
 	r.Extra("chain_inputs", len(inputs))
 	all := make([]int, len(full))
 	for i := range all {
